@@ -60,7 +60,25 @@ func (c *Ctx) ruleBinarySearch(rule string) {
 	// mid = (low+high)/2, probe re[mid].Salience
 	isMid := func(v ssa.Value) bool {
 		bo, ok := x.Origin(v).(*ssa.BinOp)
-		if !ok || bo.Op != token.QUO {
+		if !ok {
+			return false
+		}
+		// the overflow-free spelling low + (high-low)/2
+		if bo.Op == token.ADD {
+			half := func(l, h ssa.Value) bool {
+				q, ok := x.Origin(h).(*ssa.BinOp)
+				if !ok || q.Op != token.QUO || x.Cell(l) != low {
+					return false
+				}
+				if k, isK := constInt(q.Y); !isK || k != 2 {
+					return false
+				}
+				d, ok := x.Origin(q.X).(*ssa.BinOp)
+				return ok && d.Op == token.SUB && x.Cell(d.X) == high && x.Cell(d.Y) == low
+			}
+			return half(bo.X, bo.Y) || half(bo.Y, bo.X)
+		}
+		if bo.Op != token.QUO {
 			return false
 		}
 		if k, isK := constInt(bo.Y); !isK || k != 2 {
@@ -1023,6 +1041,40 @@ func (c *Ctx) ruleFullBuildAndRemoval(rule string) {
 			match := map[edgeKey]bool{}
 			var matchBlocks []*ssa.BasicBlock
 			var inner []*Loop
+			// the given names may first be put into a set (a local map filled with every given
+			// name, unconditionally, and never emptied): membership in it is the comparison
+			// with every given name at once
+			nameSets := map[*ssa.Alloc]bool{}
+			{
+				fills := map[*ssa.Alloc]int{}
+				good := map[*ssa.Alloc]bool{}
+				eachInstr(f, func(in ssa.Instruction) {
+					switch t := in.(type) {
+					case *ssa.MapUpdate:
+						cell := x.Cell(t.Map)
+						if cell == nil || cell.Parent() != f {
+							return
+						}
+						fills[cell]++
+						if _, g := isGiven(t.Key); g && len(x.GuardsOfInLoop(t.Block())) == 0 {
+							if _, isMk := x.Origin(t.Map).(*ssa.MakeMap); isMk {
+								good[cell] = true
+							}
+						}
+					case *ssa.Call:
+						if args, isDel := builtinCall(t, "delete"); isDel {
+							if cell := x.Cell(args[0]); cell != nil {
+								fills[cell] += 100
+							}
+						}
+					}
+				})
+				for cell, n := range fills {
+					if n == 1 && good[cell] && len(x.stores[cell]) == 1 {
+						nameSets[cell] = true
+					}
+				}
+			}
 			for _, blk := range f.Blocks {
 				if !outerL.Blocks[blk] || len(blk.Instrs) == 0 {
 					continue
@@ -1038,6 +1090,19 @@ func (c *Ctx) ruleFullBuildAndRemoval(rule string) {
 						break
 					}
 					cond, pol = x.Origin(u.X), !pol
+				}
+				if ex, isEx := x.Origin(cond).(*ssa.Extract); isEx && ex.Index == 1 {
+					if lk, isLk := ex.Tuple.(*ssa.Lookup); isLk && lk.CommaOk && isName(lk.Index) {
+						if cell := x.Cell(lk.X); cell != nil && nameSets[cell] {
+							k := 1
+							if pol {
+								k = 0
+							}
+							match[edgeKey{blk, k}] = true
+							matchBlocks = append(matchBlocks, blk.Succs[k])
+							continue
+						}
+					}
 				}
 				bo, ok := cond.(*ssa.BinOp)
 				if !ok || (bo.Op != token.EQL && bo.Op != token.NEQ) {
